@@ -259,6 +259,61 @@ pub fn run(args: &Args) -> Report {
                 Err(p) => rep.fail("panic", input.clone(), p),
             }
         }
+        // (1c) sort_new_items() next to included elements (C15 across an /include): the include file holds UNIT u_inc and,
+        //      behind it, an element of an alphabetically earlier kind; a new UNIT goes directly behind the include
+        //      directive (u_inc is the last placed UNIT), and the written file reloads to that order
+        for (k, inc_body) in [
+            "/begin UNIT u_inc \"\" \"u\" DERIVED /end UNIT\n/begin FUNCTION f_inc \"\" /end FUNCTION\n",
+            "/begin FUNCTION f_inc \"\" /end FUNCTION\n/begin UNIT u_inc \"\" \"u\" DERIVED /end UNIT\n",
+            "/begin UNIT u_inc \"\" \"u\" DERIVED /end UNIT\n/begin COMPU_METHOD c_inc \"\" IDENTICAL \"%6.2\" \"u\" /end COMPU_METHOD\n/begin UNIT u_inc2 \"\" \"u\" DERIVED /end UNIT\n",
+        ].iter().enumerate() {
+            let dir = root.join(format!("sni{k}"));
+            write_files(&dir, &[
+                ("main.a2l".to_string(), "ASAP2_VERSION 1 71\n/begin PROJECT p \"\"\n/begin MODULE m \"\"\n/begin UNIT u_main \"\" \"u\" DERIVED /end UNIT\n/include \"inc.a2l\"\n/begin GROUP g_main \"\" /end GROUP\n/end MODULE\n/end PROJECT\n".to_string()),
+                ("inc.a2l".to_string(), inc_body.to_string()),
+            ]);
+            let input = format!("fixed:sort-new-items-with-include:{k}");
+            std::fs::write(&current, &input).ok();
+            rep.case(&input, true);
+            rep.bump("fixed:sort-new-items-with-include");
+            let order = |f: &a2lfile::A2lFile| -> Vec<String> { crate::a2lgen::written_children(&{ let mut g = f.clone(); a2lfile::A2lObject::merge_includes(&mut g); g.write_to_string() }).first().cloned().unwrap_or_default() };
+            match catch(|| a2lfile::load(dir.join("main.a2l"), None, false)) {
+                Ok(Ok((mut f, _))) => {
+                    let before = order(&f);
+                    f.project.module[0].unit.push(a2lfile::Unit::new("u_new".to_string(), String::new(), "u".to_string(), a2lfile::UnitType::Derived));
+                    if let Err(p) = catch(std::panic::AssertUnwindSafe(|| f.sort_new_items())) {
+                        rep.fail("panic", input.clone(), p);
+                        continue;
+                    }
+                    // expected: the old order with u_new directly behind the last UNIT
+                    let mut want = before.clone();
+                    let last_unit = want.iter().rposition(|x| x.starts_with("UNIT ")).unwrap_or(0);
+                    want.insert(last_unit + 1, "UNIT u_new".to_string());
+                    let out = dir.join("out.a2l");
+                    if f.write(&out, None).is_err() {
+                        rep.fail("write", input.clone(), "writing failed".into());
+                        continue;
+                    }
+                    match catch(|| a2lfile::load(&out, None, false)) {
+                        Ok(Ok((f2, _))) => {
+                            let got = order(&f2);
+                            // elements of one include file stay together behind its directive: the new element may only be
+                            // displaced to directly behind the included elements
+                            let mut want2 = before.clone();
+                            let last_inc = want2.iter().rposition(|x| x.ends_with("_inc") || x.ends_with("_inc2")).unwrap_or(0);
+                            want2.insert(last_inc + 1, "UNIT u_new".to_string());
+                            if got != want && got != want2 {
+                                rep.fail("sort-new-items-include", input.clone(), format!("after push(UNIT u_new), sort_new_items(), write, load the order is {got:?}; expected {want:?} (or, the include file kept together, {want2:?})"));
+                            }
+                        }
+                        Ok(Err(e)) => rep.fail("reload", input.clone(), format!("the file written after sort_new_items() does not load: {e}")),
+                        Err(p) => rep.fail("panic", input.clone(), p),
+                    }
+                }
+                Ok(Err(e)) => rep.fail("generator", input.clone(), format!("fixed scenario does not load: {e}")),
+                Err(p) => rep.fail("panic", input.clone(), p),
+            }
+        }
         // (1b) the same at random: 1-4 include files, own elements of the main file in front of the directives, with and
         //      without sort(); written directives / elements against the Lean model of the writer's include logic
         for k in 0..(if args.thorough { 600 } else { 80 }) {
